@@ -46,6 +46,11 @@ class DefinitionSyntaxError(errors.DefinitionSyntaxError, fp.ParsingError):
     def set_location(self, value: str) -> None:
         super().__setattr__("location", value)
 
+    def __reduce__(self):
+        # the parent only keeps the message: carry the location and the statement
+        # (position and raw text) across pickling and copying as well.
+        return self.__class__, (self.msg, self.location), {"_statement": self._statement}
+
 
 @dataclass(frozen=True)
 class ImportDefinition(fp.IncludeStatement[ParserConfig]):
